@@ -48,7 +48,7 @@ def gen_history(t, nops, pool, dimsets, link, bulk_big=False, removes=True, big_
     ops = []
     for _ in range(nops):
         k = t.weighted([('store', 6), ('store_many', 3), ('load', 2), ('load_many', 3), ('is_cached', 1),
-                        ('remove', 2 if removes else 0), ('reopen', 1)])
+                        ('remove', 2 if removes else 0), ('reopen', 1), ('remove_many', 1 if removes else 0), ('load_meta', 1)])
         d = t.pick(dimsets)
         if k == 'store':
             ops.append(['store', t.pick(pool), d, gen_payload(t, link, big_payloads)])
@@ -66,6 +66,10 @@ def gen_history(t, nops, pool, dimsets, link, bulk_big=False, removes=True, big_
             ops.append(['is_cached', t.pick(pool), d])
         elif k == 'remove':
             ops.append(['remove', t.pick(pool), d])
+        elif k == 'remove_many':
+            ops.append(['remove_many', d, _distinct(t, pool, t.randint(2, 4))])
+        elif k == 'load_meta':
+            ops.append(['load_meta', t.pick(pool), d])
         else:
             ops.append(['reopen'])
     return ops
@@ -228,6 +232,26 @@ class Runner(object):
             self._guard(lambda: cache.remove_tile(t, dimensions=dims) if dims is not None else cache.remove_tile(t),
                         {k: None})
             self.sweep(what)
+        elif kind == 'remove_many':
+            _, dims, coords = op
+            new = {}
+            for c in coords:
+                k = akey(c, dims)
+                if k in self.model:
+                    self.removes_of_present += 1
+                new[k] = None
+            tiles = [C.make_tile(c) for c in coords]
+            self._guard(lambda: cache.remove_tiles(tiles, dimensions=dims) if dims is not None else cache.remove_tiles(tiles), new)
+            self.sweep(what)
+        elif kind == 'load_meta':
+            # a load that also asks for the metadata must return the same bytes (and a timestamp if there is a tile)
+            _, coord, dims = op
+            t = C.make_tile(coord)
+            ok = cache.load_tile(t, with_metadata=True, dimensions=dims) if dims is not None else cache.load_tile(t, with_metadata=True)
+            data = C.read_tile_bytes(t) if t.source is not None else None
+            if bool(ok) != (data is not None):
+                raise Mismatch('load-flag', '%s: load_tile returned %r but source is %s' % (what, ok, C.describe(data)))
+            self._cmp(what, coord, dims, data)
         elif kind == 'load':
             _, coord, dims = op
             ok, data = self._load1(coord, dims)
@@ -320,6 +344,8 @@ def _opstr(op):
         return 'store_tiles dims=%s %s' % (op[1], [tuple(c) for c, p in op[2]])
     if k == 'load_many':
         return 'load_tiles dims=%s %s +%d filler' % (op[1], [tuple(c) for c in op[2]], op[3])
-    if k in ('load', 'is_cached', 'remove'):
+    if k == 'remove_many':
+        return 'remove_tiles dims=%s %s' % (op[1], [tuple(c) for c in op[2]])
+    if k in ('load', 'is_cached', 'remove', 'load_meta'):
         return '%s %s dims=%s' % (k, tuple(op[1]), op[2])
     return k
